@@ -209,6 +209,11 @@ func Exec(hr string, args []string, o ExecOpts) Result {
 	cmd := exec.CommandContext(ctx, argv[0], argv[1:]...)
 	cmd.Dir = o.Dir
 	cmd.Env = BaseEnv()
+	// its own process group, killed as a whole when the watchdog fires: a run started through a wrapper
+	// (unshare, setpriv, sh) must not leave the program behind, spinning
+	cmd.SysProcAttr = &syscall.SysProcAttr{Setpgid: true}
+	cmd.Cancel = func() error { return syscall.Kill(-cmd.Process.Pid, syscall.SIGKILL) }
+	cmd.WaitDelay = 5 * time.Second
 	keys := make([]string, 0, len(o.Env))
 	for k := range o.Env {
 		keys = append(keys, k)
